@@ -220,7 +220,7 @@ func init() {
 func runC16(c *CheckCtx) {
 	names := []string{"reader.read_form", "reader.read_list", "reader.read_vector", "reader.read_hash_map", "reader.read_set", "reader.read_external",
 		"reader.read_atom", "reader.read_placeholder", "(*reader.tokenReader).peek", "(*reader.tokenReader).next",
-		"types.NewHashMap", "types.NewSet", "types.GetSlice", "lisperror.NewLispError", "repl.multiLine", "reader.Read_str"}
+		"types.NewHashMap", "types.NewSet", "types.GetSlice", "lisperror.NewLispError", "repl.multiLine", "reader.Read_str", "reader.tokenize", "lisp.READ"}
 	jobs := c.jobsFor(names, func(f *ssa.Function) *Job {
 		return &Job{Fn: f, PanicMode: "ignore"}
 	})
@@ -246,7 +246,7 @@ func runC16(c *CheckCtx) {
 	c.assumptions["A-SCAN: text -> tokens is the third-party scanner; brackets inside strings, raw strings and comments are not tokens (assumed)"] = true
 	c.assumptions["A-FIX(reader): rfC/rfP are the class and end position of reading one form; recursive calls are assumed to return them, each function is checked for one unfolding (rfStep)"] = true
 	c.assumptions["the statement's characterisation is checked against the grammar rfStep/rlC for every token sequence up to length 6 (7 in the thorough tier) over the bracket alphabet (bounded, spec level; the Go transcription of the grammar in c16lemma.go mirrors the contract file by hand)"] = true
-	c.assumptions["Read_str returns read_form's error class for the whole token array (assert-at obligations) and reports left-over tokens with a different message; that READ is Read_str without placeholder table is visible in its one-line body; Go-constructor forms («…») are classified only while their bracket is open (a constructor may return any error)"] = true
+	c.assumptions["Read_str: every return (post-conditions over its local token array) gives an EOF-class error only when that is the grammar's class for the whole token array, and a value only when one form covers all tokens; tokenize never returns an EOF-class error (fmt.Errorf with a literal format starts with the format's text); READ returns Read_str's outcome for the same text, cursor and an empty placeholder table (Read_str assumed to be a function of those: readStrE/readStrV, fresh allocations aside); Go-constructor forms («…») are classified only while their bracket is open (a constructor may return any error)"] = true
 	c.assumptions["tokens are never modified after tokenize (preserves clauses on the reader functions, assumed at call sites)"] = true
 }
 
